@@ -119,7 +119,7 @@ pub enum Consumed {
 
 /// Consume the response according to the plan; `extra` = further reads after EOF/error (Sizes/Split only).
 pub fn consume(resp: Response, plan: &ReadPlan, extra: &[usize], payload_len: usize) -> Consumed {
-    let max_calls = 4 * payload_len + 10_000;
+    let max_calls = 16 * payload_len + 100_000;
     match plan {
         ReadPlan::Sizes(s) => {
             let sizes = crate::gen::effective_sizes(s, payload_len);
